@@ -82,7 +82,7 @@ class C18(vlib.Spec):
         return [dict(c, k="compile") for c in P.gen_programs(rng, tier, n)]
 
     def n_cases(self, tier):
-        return 330 if tier == "quick" else 4000
+        return 330 if tier == "quick" else 2500
 
     def to_coq(self, case, res):
         if not isinstance(res, dict) or "flat" not in res:
